@@ -121,7 +121,16 @@ class Check(PropertyCheck):
                   "string), encode_fold, api_items, api_state, api_unicode_error_no_change, api_returns (every str a Headers "
                   "call returns denotes the byte-level result of the lowered operation) and api_run_refines (for every call "
                   "sequence with str or bytes arguments that raises no UnicodeEncodeError, the trace of returned strs and of "
-                  "all objects' fields is the abstract multimap's trace). HTTP/1: http1_roundtrip(_general): for every field "
+                  "all objects' fields is the abstract multimap's trace; api_returns_total / api_run_refines_total: the same "
+                  "without the well-formedness hypothesis, aop_wf; api_update_partial). Decoder: nativeRange_eq_native — CPython's "
+                  "range-based surrogateescape error handling, transcribed with utf8_decode's control flow, yields the same str as "
+                  "the byte-at-a-time decoder for every byte string (nativeRange_roundtrip). Shared _MultiDict code: "
+                  "headers_is_multidict_instance (the tied Headers model IS the generic _MultiDict at _kconv=lower, "
+                  "_reduce_values=join), multidict_laws / multidict_iter_len_insert / multidict_fresh_key (the laws for ANY _kconv, "
+                  "hence MultiDict and MultiDictView), view_carries_over and view_run_refines (any call history on a MultiDictView "
+                  "equals the history on a free-standing MultiDict, PROVIDED getter(setter(fs)) = fs). HTTP/1: "
+                  "parsed_headers_roundtrip / reparse_stable (no validity hypothesis: whatever _read_headers accepts, obs-fold "
+                  "included, re-serialises and re-parses to itself) and http1_roundtrip(_general): for every field "
                   "list with non-empty colon-free LF-free names not starting with SP/HTAB and LF-free values without "
                   "leading/trailing SP/HTAB/CR/LF (a superset of RFC-valid fields) _read_headers(lines(bytes(h))) returns "
                   "exactly the fields. The model (API layer incl. Headers(fields, **kwargs), codec, parser) is tied to the real "
@@ -129,8 +138,9 @@ class Check(PropertyCheck):
                   "exception class and all fields tuples after every step.")
     level_note = ("trusted: Lean kernel; the model/implementation tie is differential (exhaustive over a 13-mutator alphabet up to "
                   "depth 3 quick / 4 thorough, codec exhaustive on all 1-byte and all <=3-byte strings over the utf-8 boundary "
-                  "alphabet, random beyond). The decoder model escapes a malformed lead byte and resumes at the next byte; that "
-                  "this equals CPython's range-based error handling is argued in Model/C35_Str.lean and validated, not proved. "
+                  "alphabet, random beyond). The decoder exists in two transcriptions, byte-at-a-time (`native`) and CPython's "
+                  "range-based control flow (`nativeRange`); their equality is PROVED, and both are compared with the real _native "
+                  "on every str case; that `nativeRange` matches CPython's C source is a hand transcription (validated). "
                   "h11's blank-line search in ReceiveBuffer.maybe_extract_lines is outside the model; only its split-on-LF / "
                   "strip-CR step is modelled (splitLines) and compared with the real h11 output (cases whose block contains a "
                   "premature blank line compare the serialised bytes only; they are counted as rt:premature-blank and never "
@@ -140,10 +150,11 @@ class Check(PropertyCheck):
                   "(catches seed c35-1) and leaves their position free; the exact placement is proved about the model "
                   "(touched_spelling) and enforced by the tie. Calls with unencodable str arguments are outside the statement: "
                   "the oracle demands UnicodeEncodeError and unchanged fields, the model predicts the partial effect of update. "
-                  "Not covered: MultiDictView (request.query / cookies: case-sensitive _kconv, first-value _reduce_values, str "
-                  "items) — it shares _MultiDict's code (fingerprinted here) but is not a header collection; Headers.__init__'s "
-                  "TypeError for non-bytes fields (typing, not modelled). api_returns assumes AOp.wf (the `plain` wrapper holds "
-                  "an argument-free operation), which the driver's parser guarantees.")
+                  "MultiDictView (request.query / cookies / urlencoded_form): the generic _MultiDict model and its laws are proved "
+                  "for every _kconv and the view theorems state exactly what carries over; their hypothesis getter(setter(fs)) = fs "
+                  "is the parent's codec round trip (property C34, which has recorded failures) and is NOT derived here; the view "
+                  "instance is not tied differentially in this check (only the Headers instance is, via headers_is_multidict_"
+                  "instance). Not modelled: Headers.__init__'s TypeError for non-bytes fields (typing).")
     technique = ("Lean 4 proof (refinement to an abstract ordered multimap at byte and at str/API level, induction over fields/op "
                  "sequences; utf-8/surrogateescape codec round trip) + exhaustive/random call-sequence correspondence with the "
                  "real Headers class, _native/_always_bytes and _read_headers")
